@@ -8,6 +8,7 @@ import (
 	"github.com/preslavrachev/gomjml/mjml/constants"
 	"github.com/preslavrachev/gomjml/mjml/html"
 	"github.com/preslavrachev/gomjml/mjml/options"
+	"github.com/preslavrachev/gomjml/mjml/styles"
 	"github.com/preslavrachev/gomjml/parser"
 )
 
@@ -222,6 +223,26 @@ func (c *MJHeroComponent) Render(w io.StringWriter) error {
 		return err
 	}
 
+	// Children get the hero's width minus its horizontal padding (MJML getChildContext)
+	childWidth := containerWidth
+	paddingLeft, paddingRight := 0, 0
+	if l, r, ok := styles.ParseHorizontalSpacing(c.GetAttributeWithDefault(c, constants.MJMLPadding)); ok {
+		paddingLeft, paddingRight = int(l), int(r)
+	}
+	if pl := c.GetAttributeWithDefault(c, constants.MJMLPaddingLeft); pl != "" {
+		if px, err := styles.ParsePixel(pl); err == nil && px != nil {
+			paddingLeft = int(px.Value)
+		}
+	}
+	if pr := c.GetAttributeWithDefault(c, constants.MJMLPaddingRight); pr != "" {
+		if px, err := styles.ParsePixel(pr); err == nil && px != nil {
+			paddingRight = int(px.Value)
+		}
+	}
+	if w := containerWidth - paddingLeft - paddingRight; w > 0 {
+		childWidth = w
+	}
+
 	// Render child components
 	for _, child := range c.Children {
 		if child.IsRawElement() {
@@ -232,7 +253,7 @@ func (c *MJHeroComponent) Render(w io.StringWriter) error {
 		}
 
 		// Set container width for children
-		child.SetContainerWidth(containerWidth)
+		child.SetContainerWidth(childWidth)
 
 		// Set hero context for child rendering
 		childOpts := *c.RenderOpts // Copy the options
